@@ -366,6 +366,10 @@ class World:
             for k in removes:
                 if results.get(k) == 200:
                     col.props.pop(k, None)
+            if any(st == 200 for st in results.values()):
+                # the collection has a metadata file / section of its own from now on (it stays when the
+                # last property is removed again): part of the stored state, not of the property values
+                col.patched = True
         self.notify(s, r)
         return s, r, results
 
